@@ -13,10 +13,12 @@ PYTHONPATH=$wt/src /venv/bin/python $d/demo.py > $d/demo_without.txt 2>&1; witho
 echo "demo: with=$with without=$without ; suite with patch: $suite"
 res=""
 git -C /repo apply $d/patch.diff || { echo "patch does not apply to /repo"; exit 2; }
+mkdir -p /verif/_build/evsave; for c in "$@"; do cp /verif/evidence/$c.json /verif/_build/evsave/ 2>/dev/null; done
 for c in "$@"; do
   out=$(cd /verif && timeout 1500 ./check $c 2>&1 | grep -E "VIOLATION|^$c " | tr '\n' ' ')
   echo "  check $c: $out"
   res="$res $c:[$out]"
 done
 git -C /repo checkout -- .
+for c in "$@"; do cp /verif/_build/evsave/$c.json /verif/evidence/ 2>/dev/null; done
 echo "$res" > $d/check_results.txt
